@@ -683,6 +683,20 @@ def generate_median(repo):
                 and not isinstance(s, (ast.Import, ast.ImportFrom))]
         out = ['(* GENERATED by translate/c14.py from pydl/median.py -- do not edit *)',
                'From Coq Require Import ZArith Bool.', 'Open Scope Z_scope.', '']
+        # optional prologue (value-preserving): data in non-native byte order are converted to native order before
+        # the scipy filters --  if width is not None and not array.dtype.isnative: array = array.astype(array.dtype.newbyteorder('='))
+        pro = body[0]
+        has_pro = False
+        if isinstance(pro, ast.If) and isinstance(pro.test, ast.BoolOp) and isinstance(pro.test.op, ast.And):
+            tests = sorted(ast.unparse(v) for v in pro.test.values)
+            conv = ast.unparse(pro.body[0]) if len(pro.body) == 1 else ''
+            if not (tests == ['not array.dtype.isnative', 'width is not None'] and not pro.orelse
+                    and conv == "array = array.astype(array.dtype.newbyteorder('='))"):
+                raise P.Unrecognised('byte-order prologue has another shape: ' + ast.unparse(pro)[:120])
+            has_pro = True
+            body = body[1:]
+        out.append('(* byte-order prologue present in the source (same values, native byte order): %s *)' % ('yes' if has_pro else 'no'))
+        out.append('Definition median_native_prologue : bool := %s.' % ('true' if has_pro else 'false'))
         top = body[0]
         t = top.test
         if not (len(body) == 1 and isinstance(top, ast.If) and isinstance(t, ast.Compare) and is_name(t.left, 'width')
